@@ -110,6 +110,11 @@ func (s *Slice) visit(v ssa.Value, opt SliceOpt, depth int) {
 		s.visit(x.X, opt, depth)
 	case *ssa.TypeAssert:
 		s.visit(x.X, opt, depth)
+		if _, isPtr := x.Type().Underlying().(*types.Pointer); isPtr {
+			// a pointer obtained from elsewhere (pool, interface): what is written
+			// through it in this function also determines the pointee
+			s.allocStores(x, opt, depth, map[ssa.Value]bool{})
+		}
 	case *ssa.Extract:
 		s.visit(x.Tuple, opt, depth)
 	case *ssa.Range:
